@@ -194,9 +194,14 @@ def hedgehog_case(draw):
     c0 = draw(st.sampled_from([1.0, 0.5, 2.0])) * 10.0**e
     cell = [c0 * draw(st.sampled_from([1.0, 1.0, 1.5, 2.0, 3.0, 4.0])) for _ in range(3)]
     vert = [draw(st.integers(3, k - 3)) for k in n]
-    return {"n": n, "cell": cell, "vertex": vert, "jitter": [draw(st.sampled_from([0.0, 0.05, -0.1, 0.2])) for _ in range(3)],
+    sphere = draw(st.booleans())
+    # calibrated resolution limit (DESIGN section 6): a spherical sample of radius 3 cells whose centre sits 0.2
+    # cells off a vertex is counted as two Bloch points in 2 of 428 cases (the poles are 1-2 cells wide); up to
+    # 0.1 cells 0 of 342.  Cuboid samples: 0 of 794 up to 0.2 cells.
+    jit = [0.0, 0.05, -0.1] if sphere else [0.0, 0.05, -0.1, 0.2]
+    return {"n": n, "cell": cell, "vertex": vert, "jitter": [draw(st.sampled_from(jit)) for _ in range(3)],
             "sign": draw(st.sampled_from([1, -1])), "off": [draw(st.integers(-5, 5)) for _ in range(3)],
-            "sphere": draw(st.booleans()), "scale_len": draw(st.sampled_from([1.0, 8e5, 3e-3])),
+            "sphere": sphere, "scale_len": draw(st.sampled_from([1.0, 8e5, 3e-3])),
             "junk": draw(st.sampled_from([0, 0, 11, 12]))}
 
 
@@ -246,7 +251,11 @@ def check_hedgehog(case):
 def angle_case(draw):
     g = draw(gen.geom(ndim=3, nmin=2, nmax=5, exps=(-9, 3), big_offsets=False, maxcells=120, tol=False))
     return {"g": g, "seed": draw(st.integers(0, 2**31)), "axis": draw(st.integers(0, len(g["n"]) - 1)),
-            "units": draw(st.sampled_from(["rad", "deg"])), "exp": draw(st.integers(-4, 6))}
+            "units": draw(st.sampled_from(["rad", "deg"])), "exp": draw(st.integers(-4, 6)),
+            # vector lengths: anything, exactly one, or all within 1e-5 of one (an "is it normalised" shortcut must
+            # not change the angles), or a mixture
+            "lengths": draw(st.sampled_from(["random", "random", "unit", "near-unit", "near-unit", "mixed"])),
+            "near": draw(st.sampled_from([0.999995, 1.00001, 0.999999, 1.000004, 0.99999]))}
 
 
 def check_angles(case):
@@ -260,13 +269,21 @@ def check_angles(case):
     dims = gen.dims_of(g)
     rng = np.random.default_rng(case["seed"])
     arr = rng.normal(size=(*n, 3)) * 10.0 ** case["exp"]
+    mode = case.get("lengths", "random")
+    if mode != "random":
+        arr = arr / np.linalg.norm(arr, axis=-1, keepdims=True)
+        if mode == "near-unit":
+            arr = arr * case["near"]
+        elif mode == "mixed":
+            arr = arr * np.where(rng.random(n) < 0.5, case["near"], 1.0)[..., None]
+    tag("lengths=" + mode)
     if n[case["axis"]] >= 2:
         # include parallel, antiparallel and identical neighbours
         sl = [0] * len(n)
         a = tuple(sl)
         sl[case["axis"]] = 1
         b = tuple(sl)
-        arr[b] = -2 * arr[a]
+        arr[b] = -2 * arr[a] if case.get("lengths", "random") == "random" else -arr[a]
     f = df.Field(mesh, nvdim=3, value=arr)
     d = case["axis"]
     res = dft.neighbouring_cell_angle(f, direction=dims[d], units=case["units"])
@@ -274,7 +291,9 @@ def check_angles(case):
     lo = [slice(None)] * len(n)
     hi = [slice(None)] * len(n)
     lo[d], hi[d] = slice(0, -1), slice(1, None)
-    ref = np.arccos(np.clip(np.sum(u[tuple(lo)] * u[tuple(hi)], axis=-1), -1, 1))
+    # atan2 form: well conditioned near 0 and pi, where arccos of a rounded dot product is not
+    ua, ub = u[tuple(lo)], u[tuple(hi)]
+    ref = np.arctan2(np.linalg.norm(np.cross(ua, ub), axis=-1), np.sum(ua * ub, axis=-1))
     top = np.pi
     if case["units"] == "deg":
         ref, top = np.degrees(ref), 180.0
